@@ -28,6 +28,8 @@ type Env struct {
 	pkg  *types.Package
 	// lookup of local program variables by name (loop invariants, sites)
 	local func(name string) (Val, bool)
+	// results of the calls the function makes, by site selector
+	res func(key string, i int) (Val, bool)
 }
 
 var pkgByPath = map[string]*types.Package{}
@@ -654,6 +656,37 @@ func (e *Env) call(x *ECall) Val {
 			efail("upd sorts: key %s/%s value %s/%s", k.T.Sort, ks, v.T.Sort, vs)
 		}
 		return Val{T: tStore(a.T, k.T, v.T)}
+	case "res":
+		// res("<selector>#k") / res("<selector>#k", i): result i of that call of the function
+		if e.res == nil {
+			efail("res() is only available in ensures clauses and sites of a verified function")
+		}
+		ks, ok := x.Args[0].(*EStr)
+		if !ok {
+			efail("res() expects a string selector")
+		}
+		idx := 0
+		if len(x.Args) > 1 {
+			li, ok := x.Args[1].(*EInt)
+			if !ok {
+				efail("res() index must be a literal")
+			}
+			fmt.Sscanf(li.Val, "%d", &idx)
+		}
+		v, ok := e.res(ks.Val, idx)
+		if !ok {
+			efail("res(%q, %d): no such call result (call not executed on any path, or renamed)", ks.Val, idx)
+		}
+		return v
+	case "asIface":
+		v := e.eval(x.Args[0])
+		if v.GT == nil {
+			efail("asIface of value without Go type")
+		}
+		if _, isI := v.GT.Underlying().(*types.Interface); isI {
+			return v
+		}
+		return Val{T: c.box(v.T, v.GT)}
 	case "arr":
 		// identity of the backing array of a slice
 		v := e.eval(x.Args[0])
